@@ -315,7 +315,7 @@ func c19Cases(canaryTag string, thorough bool) []c19Case {
 	// env list / map forms with plain values
 	b, _ := yaml.Marshal(doc)
 	out = append(out, c19Case{Field: "(none)", Plant: "plain-full-document", Text: string(b)})
-	mapEnv := ySetLeaf(doc, yPath{6}, ym{kv("VERIF_C19_E3", "`touch " + canaryTag + "`"), kv("VERIF_C19_E4", "${HOME}")})
+	mapEnv := ySetLeaf(doc, yPath{6}, ym{kv("VERIF_C19_E3", "`touch "+canaryTag+"`"), kv("VERIF_C19_E4", "${HOME}")})
 	b, _ = yaml.Marshal(mapEnv)
 	out = append(out, c19Case{Field: "env(map)", Plant: "backtick", Text: string(b)})
 	if thorough {
@@ -484,7 +484,7 @@ func init() {
 		Passes: func(tier string) []core.Pass {
 			return []core.Pass{{Name: "main", Mode: "plant", Shards: 16, Timeout: 40 * time.Minute}}
 		},
-		Exhaustive: func(tier string) bool { return true },
-		Rule: "A full definition containing every string-valued field of the grammar (name, group, description, tags, schedule, logDir, env list and map, params, DAG and step preconditions, four handlers, smtp, error/info mail, functions, step description/dir/command (string and list)/script/stdout/stderr/output/depends/executor type and nested config/call args/sub-workflow and its params/step env/signalOnStop) is enumerated leaf by leaf: each string leaf in turn is replaced by a plant (`touch canary`, text with an embedded backtick command, $(touch canary), NAME=`touch canary`; thorough: all four plants on every leaf, minimal documents, every field at once). For each document one worker process, traced by the ptrace supervisor with execve logging, runs 30 non-executing entry points in sequence, each bracketed by a phase mark: dag.LoadYAML / LoadMetadata / LoadWithoutEval, DAGStore.GetMetadata / GetDetails / GetSpec / List / ListPagination / Grep / Find / TagList / UpdateSpec, client.GetStatus / GetAllStatus / GetDAGSpec / UpdateDAG / Grep, the assembled web API (GET /dags, paginated list, GET /dags/{id} for five tabs, /search, /tags, POST save) and the scheduler daemon (directory scan, watcher reload, one tick). After every phase: canary file exists (command executed), os.Environ() differs from before the phase, the supervisor logged an execve of a descendant between the phase marks (field-agnostic). Positive control: for fields that starting a DAG evaluates (env values, logDir, a parameter that is a backtick command) dag.Load on the same document must create the canary, and on the plain document must export the env/params variables — otherwise the run is inconclusive. exhaustive=true refers to the enumeration of string leaves of the full document x entry points. Non-trivial/distinct = (field, plant).",
+		Exhaustive:  func(tier string) bool { return true },
+		Rule:        "A full definition containing every string-valued field of the grammar (name, group, description, tags, schedule, logDir, env list and map, params, DAG and step preconditions, four handlers, smtp, error/info mail, functions, step description/dir/command (string and list)/script/stdout/stderr/output/depends/executor type and nested config/call args/sub-workflow and its params/step env/signalOnStop) is enumerated leaf by leaf: each string leaf in turn is replaced by a plant (`touch canary`, text with an embedded backtick command, $(touch canary), NAME=`touch canary`; thorough: all four plants on every leaf, minimal documents, every field at once). For each document one worker process, traced by the ptrace supervisor with execve logging, runs 30 non-executing entry points in sequence, each bracketed by a phase mark: dag.LoadYAML / LoadMetadata / LoadWithoutEval, DAGStore.GetMetadata / GetDetails / GetSpec / List / ListPagination / Grep / Find / TagList / UpdateSpec, client.GetStatus / GetAllStatus / GetDAGSpec / UpdateDAG / Grep, the assembled web API (GET /dags, paginated list, GET /dags/{id} for five tabs, /search, /tags, POST save) and the scheduler daemon (directory scan, watcher reload, one tick). After every phase: canary file exists (command executed), os.Environ() differs from before the phase, the supervisor logged an execve of a descendant between the phase marks (field-agnostic). Positive control: for fields that starting a DAG evaluates (env values, logDir, a parameter that is a backtick command) dag.Load on the same document must create the canary, and on the plain document must export the env/params variables — otherwise the run is inconclusive. exhaustive=true refers to the enumeration of string leaves of the full document x entry points. Non-trivial/distinct = (field, plant).",
 		Assumptions: []string{"the field grammar is the full document of c19.go plus the process-creation monitor, which does not depend on knowing the fields", "base configuration files are not planted"}})
 }
